@@ -261,6 +261,11 @@ class Program:
             # a module-level function that moved to another module of the package and is imported where it used to be:
             # the name still denotes it
             mod, _, name = qualname.rpartition(".")
+            if mod in self.classes:
+                # a method the class no longer spells out but inherits (a copy of the base-class method removed)
+                inherited = self.lookup_method(mod, name)
+                if inherited is not None:
+                    return inherited
             if mod in self.modules:
                 tgt = self.resolve_name(mod, name)
                 if tgt and tgt != qualname and tgt in self.functions:
